@@ -492,6 +492,33 @@ func c09WS(rng *rand.Rand, row map[string]interface{}) (map[string]interface{}, 
 	if err := readUntil("sentinel-b"); err != nil {
 		return nil, err
 	}
+	// a request to the slow-decoding method is still "being prepared" for a moment (its sleep can stretch to milliseconds on a busy
+	// machine): keep exchanging sentinels until its handler has run or a generous bound has passed
+	for k := 0; k < 100; k++ {
+		pending := false
+		for i, e := range els {
+			if e.slow && e.id != "bool" && e.id != "obj" && e.id != "arr" { // (a frame with an id of invalid type is dropped: nothing to wait for)
+				hs[i].mu.Lock()
+				if hs[i].execs == 0 {
+					pending = true
+				}
+				hs[i].mu.Unlock()
+			}
+		}
+		if !pending {
+			if k > 0 { // the handler has just run: its response is at most a round trip behind
+				time.Sleep(2 * time.Millisecond)
+				if err := readUntil(fmt.Sprintf("sentinel-d%d", k)); err != nil {
+					return nil, err
+				}
+			}
+			break
+		}
+		time.Sleep(10 * time.Millisecond)
+		if err := readUntil(fmt.Sprintf("sentinel-c%d", k)); err != nil {
+			return nil, err
+		}
+	}
 	execs := []int{}
 	for i := range els {
 		hs[i].mu.Lock()
